@@ -164,6 +164,18 @@ class Reconcile:
         self.trivia_fst_put = _DEFAULT_TRIVIA_FST_PUT if trivia_fst_put is None else trivia_fst_put
         self.trivia_fst_get = _DEFAULT_TRIVIA_FST_GET if trivia_fst_get is None else trivia_fst_get
 
+    @staticmethod
+    def verify_other(node: AST) -> fst.FST:
+        """Verify the `FST` of a node from a different tree before copying from that tree: links of the whole subtree and
+        that the node still is where its `FST` says (the user may have reordered the list it lives in)."""
+
+        nodef = node.f
+
+        if (parent := nodef.parent) and nodef.pfield.get(parent.a) is not node:
+            raise ValueError('node moved in its own tree')
+
+        return nodef.verify(reparse=False)
+
     def put_node(self, code: fst.FST | AST, out_parent: fst.FST | None = None, pfield: astfield | None = None) -> None:
         trivia = self.trivia_fst_put if isinstance(code, fst.FST) else self.trivia_ast_put
 
@@ -234,9 +246,9 @@ class Reconcile:
                     try:
                         for i in range(start, end):
                             if key := keys[i]:
-                                key.f.verify(reparse=False)
+                                self.verify_other(key)
 
-                            values[i].f.verify(reparse=False)
+                            self.verify_other(values[i])
 
                         slice = child_parent.get_slice(child_idx, child_idx - start + end, None,
                                                        trivia=self.trivia_fst_get).verify()  # reparse of the copy catches primitives changed in the other tree
@@ -317,7 +329,7 @@ class Reconcile:
                 if childf.root is not work_root:  # from different tree, need to verify first
                     try:
                         for i in range(start, end):
-                            body[i].f.verify(reparse=False)
+                            self.verify_other(body[i])
 
                         slice = child_parent.get_slice(child_idx, child_off_idx + end, child_field,
                                                        trivia=self.trivia_fst_get).verify()  # reparse of the copy catches primitives changed in the other tree
@@ -457,7 +469,7 @@ class Reconcile:
         if not (nodef := getattr(node, 'f', None)) or nodef.root is not self.work:  # pure AST if no '.f' or FST from different tree
             if nodef:  # FST from different tree, need to verify it before using
                 try:
-                    copy = nodef.verify(reparse=False).copy(trivia=self.trivia_fst_get).verify()  # links, then reparse of the copy catches primitives changed in the other tree
+                    copy = self.verify_other(node).copy(trivia=self.trivia_fst_get).verify()  # links, then reparse of the copy catches primitives changed in the other tree
 
                 except Exception:  # verification failed, fall through to pure AST
                     pass
